@@ -34,11 +34,13 @@ def criterion(k, apid):
         None,                                           # BaseContainer without RestrictionCriteria
         # two-parameter condition whose selectors differ; CSEL is calibrated (2x), so raw and calibrated disagree
         (BoolExpr(Cond("SEL", "==", right_param="CSEL", left_cal=False, right_cal=True)),),
-        # nested groups: (APID != 3) AND (SEL == 1 OR SEL == 0 OR (APID == 2 AND SEL == 3)); true for most packets, so that it also sits above
+        # nested groups: (APID != 3) AND (SEL == 1 OR SEL == 0 OR (APID == 2 AND SEL == 3)) AND (SEL != 0 OR APID == 1); true for most packets, so that it also sits above
         # ambiguous and dead-end children (the error paths print the container and its criteria)
         (BoolExpr(And((Cond(apid, "!=", right_value="3", right_cal=False),),
                       (Or((Cond("SEL", "==", right_value="1", right_cal=False), Cond("SEL", "==", right_value="0", right_cal=False)),
-                          (And((Cond(apid, "==", right_value="2", right_cal=False), Cond("SEL", "==", right_value="3", right_cal=False))),)),))),),
+                          (And((Cond(apid, "==", right_value="2", right_cal=False), Cond("SEL", "==", right_value="3", right_cal=False))),)),
+                       # ... AND a second OR group next to the first: (SEL != 0 OR APID == 1)
+                       Or((Cond("SEL", "!=", right_value="0", right_cal=False), Cond(apid, "==", right_value="1", right_cal=False)))))),),
         # a text discriminator whose trailing blank is significant: TAG is 'HK', 'H ', ' K' or '  ' (by APID)
         (BoolExpr(Cond("TAG", "==", right_value="H ", right_cal=False)),),
         # a discriminator whose Python type varies from packet to packet: XSEL (raw 2) is a float 2.0 in APID-0 packets, which come first (a context calibrator
